@@ -194,6 +194,33 @@ def run_compound(w, psym, a, uc, tc, v, form, st=None):
     return []
 
 
+@guarded('C10')
+def run_price_times_mass(w, psym, msym, a, order, st=None):
+    """quantity * price: the money that results is in the price's own
+    currency, whatever was multiplied before"""
+    Q = w.q
+    from quantity.money import Money
+    pu, mu = w.units[psym], w.units[msym]
+    price, mass = pu.qty_cls(F(a), pu), mu.qty_cls(F(3), mu)
+    um = w.um[psym]
+    (c,) = [s for s, e in um.udim if s in CUR]
+    exact = F(a) * um.ufac * 3 * w.um[msym].scale
+    want = O.round_to(exact, CUR[c], O.get_mode())
+    try:
+        res = price * mass if order == 'p*m' else mass * price
+    except Exception as exc:
+        return [(f'C10:price-times-quantity:{order}:raises',
+                 f"({price!r}) x ({mass!r}): {type(exc).__name__}: {exc}")]
+    if st is not None:
+        st.transitions += 1
+        st.evaluations += 1
+    if type(res) is not Money or res.unit is not w.units[c] or \
+            O.fr(res.amount) != want:
+        return [(f'C10:price-times-quantity:{order}',
+                 f"({price!r}) x ({mass!r}) = {res!r}, expected {want} {c}")]
+    return []
+
+
 def rates_for(tier):
     pairs = [('EUR', 'USD'), ('USD', 'EUR'), ('EUR', 'JPY'), ('JPY', 'EUR'),
              ('USD', 'TND'), ('TND', 'JPY')]
@@ -278,6 +305,15 @@ def part_compound(p, rates):
     st = Stats()
     w, declared = build_compound(mask, kind)
     subjects = list(declared) + ['kg', 'EUR']
+    if kind == 'mass':
+        for order in ('p*m', 'm*p'):
+            for msym in ('kg', 'g'):
+                for psym in declared:       # one currency after the other
+                    st.paths += 1
+                    for sig, msg in run_price_times_mass(
+                            w, psym, msym, '1745/1000', order, st):
+                        st.violation(sig, msg, {'price_mass': [
+                            mask, psym, msym, '1745/1000', order]})
     for psym in subjects:
         for a in (F(1745, 100), F(-1, 3), F(10 ** 6) + F(1, 8)):
             for uc, tc, v in rates:
@@ -295,7 +331,23 @@ def part_compound(p, rates):
     return st
 
 
+def replay_price_mass(case):
+    mask, psym, msym, a, order = case['price_mass']
+    w, declared = build_compound(mask, 'mass')
+    out = []
+    # the whole sequence up to the failing step is the case
+    for o in ('p*m', 'm*p'):
+        for m in ('kg', 'g'):
+            for ps in declared:
+                out = run_price_times_mass(w, ps, m, a, o)
+                if (o, m, ps) == (order, msym, psym):
+                    return out
+    return out
+
+
 def replay(case):
+    if 'price_mass' in case:
+        return replay_price_mass(case)
     Money = money()
     if 'money' in case:
         for x in CUR:
@@ -309,12 +361,7 @@ def replay(case):
 def run(tier, seed):
     total = Stats()
     rates = rates_for(tier)
-    if tier == 'thorough':
-        modes = O.MODES
-    else:
-        k = seed % 7
-        others = [m for m in O.MODES if m != 'ROUND_HALF_EVEN']
-        modes = ['ROUND_HALF_EVEN', others[k], others[(k + 2) % 7]]
+    modes = list(O.MODES)      # cheap enough for every tier
     parts = [(c, m) for c in CUR for m in modes]
     total.merge(pmap(part_money, parts, (rates,), fresh=True))
     cparts = [(mask, 'mass') for mask in range(16)]
@@ -339,7 +386,9 @@ def run(tier, seed):
              "quanta (solved by modular inverse, both signs); compound: Money/Mass with each of the 16 subsets of "
              "{EUR,USD}x{kg,g} units declared, Money/Length and "
              "Money/Duration^2 with 5 subsets, x 3 amounts x rates x "
-             "{p*r, r*p, p/r}, plus non-money quantities. non-trivial = "
+             "{p*r, r*p, p/r}, plus non-money quantities, plus price x mass "
+             "for every declared price unit in sequence (the money must be "
+             "in the price's own currency). non-trivial = "
              "non-zero amount / declared price unit",
         level_text="bounded exhaustive enumeration; oracle = exact product "
                    "rounded once / exact scaling with three-valued unit "
